@@ -15,6 +15,8 @@ from ..oracle import spec
 def cases(draw):
     d = draw(st.sampled_from(impl.DRAFTS))
     s = draw(GS.schema_object(d, GS.schemas(d, 6)))
+    if draw(st.integers(0, 5)) == 0:
+        s = GS.widen(s, draw(st.integers(0, 1000)), d)      # one keyword far beyond the sizes drawn otherwise
     xs = draw(GI.instances_for(s, 3))
     return {"draft": d, "schema": s, "instances": xs, "probes": 24, "alias": draw(st.integers(0, 5)) == 0}
 
